@@ -52,6 +52,14 @@ pub enum ObsKind {
     // generic
     ApiResult { what: String, ok: bool, detail: String },
     NodeEnded,
+    // probe user protocols
+    ProbeEstablished { probe: usize, peer: PeerId },
+    ProbeClosed { probe: usize, peer: PeerId },
+    ProbeDialFailure { probe: usize, peer: PeerId },
+    ProbeSubstream { probe: usize, peer: PeerId, inbound: bool },
+    ProbeOpenFailure { probe: usize, id: usize },
+    ProbeOpenCalled { probe: usize, peer: PeerId, id: Option<usize> },
+    ProbeExited { probe: usize },
 }
 
 #[derive(Debug, Clone)]
@@ -129,6 +137,8 @@ pub struct NodeSetup {
     pub identify: bool,
     pub connection_open_timeout: Option<Duration>,
     pub substream_open_timeout: Option<Duration>,
+    /// number of probe user protocols ("/vh/probe/<k>")
+    pub probes: usize,
 }
 
 pub struct Node {
@@ -136,7 +146,76 @@ pub struct Node {
     pub peer: PeerId,
     pub address: Multiaddr,
     pub cmd: mpsc::UnboundedSender<Cmd>,
+    pub probes: Vec<mpsc::UnboundedSender<ProbeCmd>>,
     rt: Option<tokio::runtime::Runtime>,
+}
+
+/// A user protocol that records every TransportEvent it sees and executes commands (all public API).
+pub struct Probe {
+    pub name: String,
+    pub node: usize,
+    pub probe: usize,
+    pub log: Log,
+    pub cmd: mpsc::UnboundedReceiver<ProbeCmd>,
+}
+
+pub enum ProbeCmd {
+    Open(PeerId),
+    DropHeld,
+    ForceClose(PeerId),
+    /// return from `run`: the protocol shuts down
+    Exit,
+}
+
+#[async_trait::async_trait]
+impl litep2p::protocol::UserProtocol for Probe {
+    fn protocol(&self) -> ProtocolName {
+        ProtocolName::from(self.name.clone())
+    }
+
+    fn codec(&self) -> litep2p::codec::ProtocolCodec {
+        litep2p::codec::ProtocolCodec::UnsignedVarint(Some(1024))
+    }
+
+    async fn run(mut self: Box<Self>, mut service: litep2p::protocol::TransportService) -> litep2p::Result<()> {
+        use litep2p::protocol::TransportEvent;
+        let mut held: Vec<litep2p::substream::Substream> = Vec::new();
+        loop {
+            tokio::select! {
+                ev = service.next() => {
+                    let Some(ev) = ev else { return Ok(()); };
+                    let kind = match ev {
+                        TransportEvent::ConnectionEstablished { peer, .. } => ObsKind::ProbeEstablished { probe: self.probe, peer },
+                        TransportEvent::ConnectionClosed { peer } => ObsKind::ProbeClosed { probe: self.probe, peer },
+                        TransportEvent::DialFailure { peer, .. } => ObsKind::ProbeDialFailure { probe: self.probe, peer },
+                        TransportEvent::SubstreamOpened { peer, substream, direction, .. } => {
+                            held.push(substream);
+                            ObsKind::ProbeSubstream { probe: self.probe, peer, inbound: matches!(direction, litep2p::protocol::Direction::Inbound) }
+                        }
+                        TransportEvent::SubstreamOpenFailure { substream, .. } => ObsKind::ProbeOpenFailure { probe: self.probe, id: substream.verif_raw() },
+                    };
+                    push(&self.log, self.node, kind);
+                }
+                cmd = self.cmd.recv() => {
+                    match cmd {
+                        None | Some(ProbeCmd::Exit) => {
+                            push(&self.log, self.node, ObsKind::ProbeExited { probe: self.probe });
+                            return Ok(());
+                        }
+                        Some(ProbeCmd::Open(peer)) => {
+                            let r = service.open_substream(peer);
+                            push(&self.log, self.node, ObsKind::ProbeOpenCalled { probe: self.probe, peer, id: r.as_ref().ok().map(|i| i.verif_raw()) });
+                        }
+                        Some(ProbeCmd::DropHeld) => held.clear(),
+                        Some(ProbeCmd::ForceClose(peer)) => {
+                            let r = service.force_close(peer);
+                            push(&self.log, self.node, ObsKind::ApiResult { what: format!("probe{} force_close {peer}", self.probe), ok: r.is_ok(), detail: String::new() });
+                        }
+                    }
+                }
+            }
+        }
+    }
 }
 
 pub const RR_PROTOCOL: &str = "/vh/rr/1";
@@ -179,8 +258,15 @@ impl Node {
         let (cmd_tx, cmd_rx) = mpsc::unbounded_channel::<Cmd>();
         let (ready_tx, ready_rx) = std::sync::mpsc::channel::<Result<(PeerId, Multiaddr), String>>();
         let log2 = log.clone();
+        let mut probe_txs = Vec::new();
+        let mut probes = Vec::new();
+        for k in 0..setup.probes {
+            let (tx, rx) = mpsc::unbounded_channel::<ProbeCmd>();
+            probe_txs.push(tx);
+            probes.push(Probe { name: format!("/vh/probe/{k}"), node: index, probe: k, log: log.clone(), cmd: rx });
+        }
         rt.spawn(async move {
-            node_main(index, setup, log2, cmd_rx, ready_tx).await;
+            node_main(index, setup, log2, cmd_rx, ready_tx, probes).await;
         });
         let (peer, address) = ready_rx.recv_timeout(Duration::from_secs(10)).map_err(|e| e.to_string())??;
         Ok(Node {
@@ -188,6 +274,7 @@ impl Node {
             peer,
             address,
             cmd: cmd_tx,
+            probes: probe_txs,
             rt: Some(rt),
         })
     }
@@ -239,6 +326,7 @@ async fn node_main(
     log: Log,
     mut cmd_rx: mpsc::UnboundedReceiver<Cmd>,
     ready: std::sync::mpsc::Sender<Result<(PeerId, Multiaddr), String>>,
+    probes: Vec<Probe>,
 ) {
     let keypair = keypair_from_seed(setup.seed);
     let mut tcp = TcpConfig {
@@ -289,6 +377,13 @@ async fn node_main(
         let (cfg, handle): (KadConfig, KademliaHandle) = KadConfigBuilder::new().with_replication_factor(s.replication_factor).build();
         builder = builder.with_libp2p_kademlia(cfg);
         kad = Some(handle);
+    }
+    for p in probes {
+        builder = builder.with_user_protocol(Box::new(p));
+    }
+    if setup.ping {
+        let (cfg, _events) = litep2p::protocol::libp2p::ping::Config::default();
+        builder = builder.with_libp2p_ping(cfg);
     }
     let mut litep2p = match Litep2p::new(builder.build()) {
         Ok(l) => l,
